@@ -11,6 +11,7 @@ import (
 	"io"
 	"log/slog"
 	"net"
+	"sort"
 	"strings"
 	"sync"
 	"sync/atomic"
@@ -170,6 +171,85 @@ func (a *Aggr) Report(s core.Sample) { a.n.Add(1) }
 
 func (a *Aggr) Count() int64 { return a.n.Load() }
 
+// RecAggr records every reported sample: its identity and a hash of its content at the moment of Report. It keeps
+// every sample (none goes back to the sample pool, so the pool can never hand out the same object again): two records
+// with one identity mean ONE sample was reported twice, and a content hash that differs later means the sample was
+// written after it had been handed over.
+type RecAggr struct {
+	mu   sync.Mutex
+	recs []sampleRec
+}
+
+type sampleRec struct {
+	s core.Sample
+	p uintptr
+	h uint64
+}
+
+func (a *RecAggr) Run(ctx context.Context, _ core.AggregatorDeps) error {
+	<-ctx.Done()
+	return nil
+}
+
+func (a *RecAggr) Report(s core.Sample) {
+	h, _ := HashPointee(s)
+	a.mu.Lock()
+	a.recs = append(a.recs, sampleRec{s: s, p: PointerOf(s), h: h})
+	a.mu.Unlock()
+}
+
+// Words: for every distinct sample object (in the order of its first report) what the gun did with it, as a word over
+// T (taken from the pool), W (written), G (given to the aggregator): "TWG" is the normal life of a sample on the gun's
+// side; a "W" after a "G" is a write to a sample the aggregator owns, a second "G" a second hand-over. Returned as a
+// sorted multiset "word:count,…" and the total number of reports.
+func (a *RecAggr) Words() (reports int, words string) {
+	a.mu.Lock()
+	defer a.mu.Unlock()
+	var order []uintptr
+	by := map[uintptr][]sampleRec{}
+	for _, r := range a.recs {
+		reports++
+		if _, ok := by[r.p]; !ok {
+			order = append(order, r.p)
+		}
+		by[r.p] = append(by[r.p], r)
+	}
+	count := map[string]int{}
+	for _, p := range order {
+		rs := by[p]
+		w := "TW"
+		for k, r := range rs {
+			w += "G"
+			var later uint64
+			var ok bool
+			if k+1 < len(rs) {
+				later, ok = rs[k+1].h, true
+			} else {
+				later, ok = HashPointee(r.s)
+			}
+			if ok && later != r.h {
+				w += "W"
+			}
+		}
+		count[w]++
+	}
+	var keys []string
+	for k := range count {
+		keys = append(keys, k)
+	}
+	sort.Strings(keys)
+	for i, k := range keys {
+		if i > 0 {
+			words += ","
+		}
+		words += fmt.Sprintf("%s:%d", k, count[k])
+	}
+	if words == "" {
+		words = "-"
+	}
+	return
+}
+
 // RunEngine runs the decoded pool through the real engine with the given aggregator (nil = the configured one) and
 // returns the engine error text ("" = nil).
 func RunEngine(yamlText string, aggr core.Aggregator, timeout time.Duration) string {
@@ -207,18 +287,20 @@ type Manual struct {
 	Provider core.Provider
 	Guns     []core.Gun
 	WarmGun  core.Gun
-	Aggr     *Aggr
+	Aggr     core.Aggregator
 	cancel   context.CancelFunc
 	provErr  chan error
 }
 
-func NewManual(yamlText string, n int) (*Manual, error) {
+func NewManual(yamlText string, n int) (*Manual, error) { return NewManualAggr(yamlText, n, &Aggr{}) }
+
+func NewManualAggr(yamlText string, n int, aggr core.Aggregator) (*Manual, error) {
 	conf, err := DecodePool(yamlText)
 	if err != nil {
 		return nil, fmt.Errorf("config: %w", err)
 	}
 	pool := conf.Engine.Pools[0]
-	m := &Manual{Provider: pool.Provider, Aggr: &Aggr{}, provErr: make(chan error, 1)}
+	m := &Manual{Provider: pool.Provider, Aggr: aggr, provErr: make(chan error, 1)}
 	ctx, cancel := context.WithCancel(context.Background())
 	m.cancel = cancel
 	log := zap.NewNop()
